@@ -55,3 +55,27 @@ Theorem C05_refuted_gap_overwrite_before_fix :
               <> a_items (fst (run a_step (abs (new_ring 1)) ops)).
 Proof. exists f12_ops. exact f12_witness. Qed.
 Print Assumptions C05_refuted_gap_overwrite_before_fix.
+
+(* Composition with C01-C04: the sender's id table of the routing model IS this abstract ring - aggregation, discarding
+   and appending of the routing model are a_aggregate, a_discard and a_append on the corresponding abstract ring (source
+   shard n <-> the pair (1, n+1), never the hole).  With C05_refines, the routing theorems therefore speak about the
+   circular buffer of the code. *)
+From S2S Require Routing.Model Routing.Inv Routing.RingLink.
+Theorem C05_routing_aggregate_is_ring_aggregate : forall s w,
+  a_aggregate (Routing.RingLink.view_of s) w
+  = (map Routing.RingLink.conv_kv (fst (Routing.Model.aggregate s w)), snd (Routing.Model.aggregate s w)).
+Proof. exact Routing.RingLink.aggregate_is_ring_aggregate. Qed.
+Print Assumptions C05_routing_aggregate_is_ring_aggregate.
+
+Theorem C05_routing_discard_is_ring_discard : forall s c,
+  (c <= length (Routing.Model.s_ring s))%nat ->
+  Routing.RingLink.view_of (Routing.Model.s_discard c s) = a_discard (Routing.RingLink.view_of s) (Z.of_nat c).
+Proof. exact Routing.RingLink.discard_is_ring_discard. Qed.
+Print Assumptions C05_routing_discard_is_ring_discard.
+
+Theorem C05_routing_append_is_ring_append : forall s e,
+  Routing.Inv.ring_ok s ->
+  Routing.RingLink.view_of (Routing.Model.s_append [e] (Routing.Model.s_next s + 1) s)
+  = a_append (Routing.RingLink.view_of s) (Routing.Model.s_next s + 1) (Routing.RingLink.conv_src (Routing.Model.e_src e)) (Routing.Model.e_val e).
+Proof. exact Routing.RingLink.append_is_ring_append. Qed.
+Print Assumptions C05_routing_append_is_ring_append.
